@@ -47,11 +47,13 @@ def eligible (c : Ctx) (n : Node) : Bool :=
       let age := trueAgeNs c.nowMock v
       (age > c.cfg.softNs && nodeEmpty c.view.pods n) || age > c.cfg.hardNs))
 
+/-- A removal call is justified when some eligible node of the view backs it. -/
 def C01.okEntry (c : Ctx) (e : Entry) : Bool :=
-  match removalTargetNode c e with
-  | none => true
-  | some none => false
-  | some (some n) => eligible c n
+  match e.call with
+  | .deleteNode name => c.view.nodes.any (fun n => n.name == name && eligible c n)
+  | .terminateInAsg id _ =>
+      c.view.nodes.any (fun n => eligible c n && c.g.asg.instances.any (fun i => i.id == id && providerIdOf i == n.providerID))
+  | _ => true
 
 def C01.holds (c : Ctx) (j : Journal) : Bool := j.all (C01.okEntry c)
 
